@@ -335,6 +335,8 @@ pub struct RunCtx {
     pub sweep_hit: RefCell<Option<(u32, Vec<AtRest>)>>,
     /// physically complete records that may or may not be visible: (blob, offset)
     pub optional_records: RefCell<BTreeSet<(usize, u64)>>,
+    /// complete records of operations that returned an error under an injected fault: must stay invisible
+    pub forbidden_records: RefCell<BTreeSet<(usize, u64)>>,
     pub crash_victims: RefCell<BTreeSet<usize>>,
     pub acked_before_crash: RefCell<BTreeSet<u32>>,
     pub quarantined_before: RefCell<BTreeSet<usize>>,
@@ -499,6 +501,7 @@ where
         closed_writes: RefCell::new(BTreeSet::new()),
         sweep_hit: RefCell::new(None),
         optional_records: RefCell::new(BTreeSet::new()),
+        forbidden_records: RefCell::new(BTreeSet::new()),
         crash_victims: RefCell::new(BTreeSet::new()),
         acked_before_crash: RefCell::new(BTreeSet::new()),
         quarantined_before: RefCell::new(BTreeSet::new()),
@@ -548,8 +551,22 @@ where
     let mut violations = ctx.violations.borrow().clone();
     {
         let w = world.inner.borrow();
+        let extra = match plan.profile.split('+').next().unwrap_or("") {
+            p if p.starts_with("cancel") => Some("C14"),
+            p if p.starts_with("conc") => Some("C08"),
+            p if p.starts_with("iofault") => Some("C11"),
+            p if p.starts_with("crash") => Some("C06"),
+            _ => None,
+        };
         for v in w.violations.iter() {
-            violations.push(v.clone());
+            let mut v = v.clone();
+            // overlapping records are also what C08 ("records never overlap"), C14 and C11 forbid
+            if v.rule == "C07.append-only" {
+                if let Some(e) = extra {
+                    v.property = format!("{},{}", v.property, e);
+                }
+            }
+            violations.push(v);
         }
     }
     let w = world.inner.borrow();
